@@ -122,7 +122,8 @@ class System:
                 viol += self._cmp_frame(df, eqs, ref, "run")
                 if k == "run_twice" and not viol:
                     df2 = SdSimulation(model=m, name="run").start(output=["frame"], equations=list(eqs))
-                    if not df.equals(df2):
+                    # (the column order follows whichever worker thread stored first: compare per equation)
+                    if sorted(df.columns) != sorted(df2.columns) or not df[sorted(df.columns)].equals(df2[sorted(df2.columns)]):
                         viol.append(("rerun-differs", "two consecutive runs of %r differ" % (eqs,)))
         except Exception as e:
             viol.append(("op-raises/%s/%s" % (k, type(e).__name__), repr(e)[:200]))
